@@ -478,7 +478,47 @@ impl Prop for SharedEngine {
             }
             ensure!(observe(&engine) == before, "engine-mutated", "setters on a clone changed the original engine's observable settings");
         }
+        // (f) a value READ from the engine is a value like any other: an engine that was set to v dB
+        // and then had its own reading written back (the volume getter is lossy: it reports the dB
+        // of a stored linear gain) must render like an engine that is set to that reading directly.
+        // The volume is searched near the case's own so that the reading differs from what was set.
+        let mut wrote_back = false;
+        if c.jobs.len() % 2 == 0 {
+            let v0 = c.cond.volume_db;
+            let probe = |v: f64| -> Option<f64> {
+                let mut a = engine.condition.clone();
+                a.set_volume(v);
+                let g = a.get_volume();
+                let mut b = engine.condition.clone();
+                b.set_volume(g);
+                (g != v && format!("{:?}", a) != format!("{:?}", b)).then_some(g)
+            };
+            // (readings that differ cluster where exp and ln round differently, around +-8..9 dB with
+            // this libm: both neighbourhoods are scanned, the case's own first)
+            let sign = if v0 > 0.0 { -1.0 } else { 1.0 };
+            let start = 8.0 + (v0.abs() * 1000.0).fract() * 0.5;
+            let found = (0..4000)
+                .map(|i| v0 + (i as f64) * 1e-3 * sign)
+                .chain((0..8000).map(|i| -sign * (start + i as f64 * 1e-4)))
+                .find_map(|v| probe(v).map(|g| (v, g)));
+            if let Some((v, g)) = found {
+                let mut hist = engine.clone();
+                hist.condition.set_volume(v);
+                let read = hist.condition.get_volume();
+                hist.condition.set_volume(read);
+                let mut direct = engine.clone();
+                direct.condition.set_volume(0.0);
+                direct.condition.set_volume(g);
+                let a = run_job(&hist, &c.jobs[0]).map_err(|e| Failure::new("synthesize-error", e))?;
+                let b = run_job(&direct, &c.jobs[0]).map_err(|e| Failure::new("synthesize-error", e))?;
+                if let Some(i) = bits_equal(&a, &b) {
+                    fail!("history-dependence", "an engine set to {} dB whose own volume reading {} was written back renders differently (sample {}) from an engine set to {} dB directly", v, read, i, g);
+                }
+                wrote_back = true;
+            }
+        }
         let mut rep = Report::new();
+        rep.class_if(wrote_back, "volume-reading-written-back");
         let distinct = c.jobs.iter().map(|j| &j.labels).collect::<std::collections::HashSet<_>>().len();
         rep.nontrivial = c.jobs.len() >= 2 && distinct >= 2;
         rep.class(c.voice.class());
